@@ -582,4 +582,63 @@ theorem crashImage_header (H : V2Header) (rest : Bytes) (k j : Nat) :
         rw [this, f24l, hb]; simp [zeros]
       rw [h2]
       simp [crashImage, applyWrites, V2Header.bytes_length, zeros, List.take_of_length_le]
+theorem writeAt_past_end (F d : Bytes) (ip : Nat) (hne : d ≠ []) :
+    writeAt F (F.length + ip) d = F ++ zeros ip ++ d := by
+  unfold writeAt
+  simp only [hne, ↓reduceIte]
+  by_cases h0 : ip = 0
+  · subst h0
+    have hl : ¬ (F.length < F.length + 0) := by omega
+    simp only [hl, ↓reduceIte, Nat.add_zero, List.take_length, zeros, List.replicate_zero, List.append_nil]
+    rw [List.drop_of_length_le (by simp)]; simp
+  · have hl : F.length < F.length + ip := by omega
+    simp only [hl, ↓reduceIte]
+    have e : F.length + ip - F.length = ip := by omega
+    rw [e]
+    have hlen : (F ++ zeros ip).length = F.length + ip := by simp [zeros]
+    rw [List.take_of_length_le (by omega), List.drop_of_length_le (by rw [hlen]; omega)]
+    simp
+
+/-- Crash images of a run of appending writes that starts `ip` bytes past the end of the file (the index
+    after an index padding): nothing yet, or the file, the zero-filled hole and a prefix of the parts. -/
+theorem crashImage_chunks_hole : ∀ (parts : List Bytes) (F : Bytes) (ip k j : Nat),
+    crashImage F (chunkEvs (F.length + ip) parts) k j = F ∨
+    ∃ m, crashImage F (chunkEvs (F.length + ip) parts) k j = F ++ zeros ip ++ parts.flatten.take m := by
+  intro parts
+  induction parts with
+  | nil => intro F ip k j; left; simp [chunkEvs, crashImage, applyWrites]
+  | cons p ps ih =>
+    intro F ip k j
+    rw [chunkEvs_cons]
+    cases k with
+    | zero =>
+      simp only [crashImage, List.take_zero, List.nil_append, List.getElem?_cons_zero, WriteEv.cut]
+      by_cases hj : j = 0
+      · left; simp [hj, applyWrites]
+      · simp only [hj, ↓reduceIte, applyWrites, List.foldl_cons, List.foldl_nil, WriteEv.apply]
+        by_cases hp : p.take j = []
+        · left; simp [writeAt, hp]
+        · right
+          refine ⟨min j p.length, ?_⟩
+          rw [writeAt_past_end F _ ip hp, List.flatten_cons, List.take_append_of_le_length (Nat.min_le_right _ _)]
+          congr 1
+          by_cases h : j ≤ p.length
+          · rw [Nat.min_eq_left h]
+          · rw [Nat.min_eq_right (by omega), List.take_of_length_le (by omega), List.take_of_length_le (Nat.le_refl _)]
+    | succ k =>
+      rw [crashImage_cons_succ]
+      simp only [WriteEv.apply]
+      by_cases hp : p = []
+      · subst hp
+        simp only [writeAt_nil, List.length_nil, Nat.add_zero, List.flatten_cons, List.nil_append]
+        exact ih F ip k j
+      · right
+        rw [writeAt_past_end F p ip hp]
+        have hlen : (F ++ zeros ip ++ p).length = F.length + ip + p.length := by simp [zeros]; omega
+        rw [← hlen, crashImage_chunks]
+        obtain ⟨m, _, he⟩ := chunks_prefix ps k j
+        refine ⟨p.length + m, ?_⟩
+        rw [List.append_assoc (F ++ zeros ip ++ p), he, List.flatten_cons, List.take_append,
+          List.take_of_length_le (Nat.le_add_right _ _), Nat.add_sub_cancel_left]
+        simp
 end Car
